@@ -140,6 +140,8 @@ make_fn!(booleantok<OffsetStrIter, Token>,
             text_token!("true"),
             text_token!("false")
         ),
+        // `trueish` is a bareword, not `true` followed by `ish`.
+        _ => not!(is_symbol_char),
         (Token{
             typ: TokenType::BOOLEAN,
             pos: Position::from(&span),
@@ -178,7 +180,17 @@ macro_rules! do_text_token_tok {
 }
 
 make_fn!(emptytok<OffsetStrIter, Token>,
-       do_text_token_tok!(TokenType::EMPTY, "NULL")
+       do_each!(
+           span => input!(),
+           frag => text_token!("NULL"),
+           // `NULLable` is a bareword, not `NULL` followed by `able`.
+           _ => not!(is_symbol_char),
+           (Token {
+               typ: TokenType::EMPTY,
+               pos: Position::from(&span),
+               fragment: frag.into(),
+           })
+       )
 );
 
 make_fn!(commatok<OffsetStrIter, Token>,
